@@ -32,7 +32,7 @@ type spec struct {
 	Ops        []op
 }
 
-var writeKinds = []string{"insert", "insert", "update", "delete", "bulk", "bulk-big", "create-table", "drop-table", "create-index", "drop-index", "alter", "vacuum", "incr-vacuum", "delete-all", "update-grow"}
+var writeKinds = []string{"insert", "insert", "update", "delete", "bulk", "bulk-big", "create-table", "drop-table", "create-index", "drop-index", "alter", "vacuum", "incr-vacuum", "delete-all", "update-grow", "vacuum-pagesize"}
 var readKinds = []string{"select", "select", "indexed", "rowid", "columns", "low-scan", "low-tables", "low-schema", "low-all", "repeat", "pk"}
 
 func TestC08History(t *testing.T) {
@@ -318,6 +318,14 @@ func run(r *vt.Run, t vt.TB, s spec) {
 			if exec("VACUUM") {
 				history = append(history, "vacuum")
 				note("vacuum")
+			}
+		case "vacuum-pagesize":
+			// VACUUM rebuilds the file with another page size
+			nps := []int{512, 1024, 2048, 4096, 8192}[o.B%5]
+			if exec(fmt.Sprintf("PRAGMA page_size=%d", nps)) && exec("VACUUM") {
+				history = append(history, fmt.Sprintf("vacuum-pagesize:%d", nps))
+				note("vacuum")
+				note("pagesize")
 			}
 		case "incr-vacuum":
 			if exec("PRAGMA incremental_vacuum") {
